@@ -38,17 +38,34 @@ def _digest_formula(f):
             r, c = coo.row[order], coo.col[order]
         return sorted(zip(map(int, r), map(int, c)))
 
-    A = dense(f.linear)
-    d = {"shape": list(A.shape), "A": np.round(A, 9).tolist(), "stored": stored(f.linear),
-         "const": np.round(np.asarray(f.const, dtype=float), 9).tolist(),
-         "sense": np.asarray(f.sense, dtype=float).tolist(), "vtype": [str(v) for v in f.vtype],
-         "ub": [repr(float(v)) for v in f.ub], "lb": [repr(float(v)) for v in f.lb],
-         "obj": np.round(np.asarray(f.obj, dtype=float).reshape(-1), 9).tolist(),
-         "qmat": [[int(i) for i in q] for q in getattr(f, "qmat", [])],
-         "xmat": [[int(i) for i in q] for q in getattr(f, "xmat", [])],
+    def h(x):
+        return hashlib.sha1(x).hexdigest()[:12]
+
+    st = stored(f.linear)
+    M = f.linear
+    if hasattr(M, "S"):
+        Ad = np.asarray(M.toarray(), dtype=float)
+        vals = [float(Ad[i, j]) for i, j in st]
+    else:
+        csr = M.tocsr()
+        vals = [float(csr[i, j]) for i, j in st] if len(st) < 20000 else []
+    nzv = [(i, j, round(v, 8)) for (i, j), v in zip(st, vals) if v != 0]
+    d = {"shape": list(M.shape), "A": h(repr(nzv).encode()), "stored": h(repr(st).encode()),
+         "const": h(np.round(np.asarray(f.const, dtype=float), 8).tobytes()),
+         "sense": h(np.asarray(f.sense, dtype=float).tobytes()), "vtype": h("".join(str(v) for v in f.vtype).encode()),
+         "ub": h(np.asarray(f.ub, dtype=float).tobytes()), "lb": h(np.asarray(f.lb, dtype=float).tobytes()),
+         "obj": h(np.round(np.asarray(f.obj, dtype=float).reshape(-1), 8).tobytes()),
+         "qmat": h(repr([[int(i) for i in q] for q in getattr(f, "qmat", [])]).encode()),
+         "xmat": h(repr([[int(i) for i in q] for q in getattr(f, "xmat", [])]).encode()),
          "lmi": len(getattr(f, "lmi", []) or [])}
     s = json.dumps(d, sort_keys=True)
     return hashlib.sha1(s.encode()).hexdigest()[:16], d
+
+
+# the case-study tests build models with thousands of columns: far beyond what dense proxies are meant for
+DEFAULT_TESTS = ("test_ambiguity.py test_dro_affine.py test_dro_convex.py test_dro_dvar.py test_dro_model.py "
+                 "test_expcone_dro.py test_expcone_ro.py test_lp_model.py test_ro_affine.py test_ro_convex.py "
+                 "test_ro_dvar.py test_ro_ldr.py test_ro_model.py test_ro_rvar.py test_socp_model.py")
 
 
 def record(mode, out):
@@ -85,8 +102,9 @@ def record(mode, out):
         def pytest_runtest_setup(self, item):
             log["current"] = item.nodeid
 
-    pytest.main(["-q", "-x" if False else "-q", "-p", "no:cacheprovider", "--timeout=600", "-W", "ignore",
-                 os.path.join(REPO, "tests")], plugins=[Plugin()])
+    sel = os.environ.get("RVERIF_CONF_TESTS", DEFAULT_TESTS).split()
+    targets = [os.path.join(REPO, "tests", t) for t in sel] if sel else [os.path.join(REPO, "tests")]
+    pytest.main(["-q", "-q", "--tb=no", "-p", "no:cacheprovider", "--timeout=600", "-W", "ignore"] + targets, plugins=[Plugin()])
     with open(out, "w") as f:
         json.dump(log["formulas"], f)
 
